@@ -84,6 +84,17 @@ theorem chkS_of_check (P : Params) (hfee : 0 ≤ P.retvFee) (h : Nat) (s : State
               apply hany
               exact List.any_eq_true.mpr ⟨v, hv, by simpa using hle⟩
             omega
+  | renew k' ol am nl bo =>
+    intro hk; subst hk
+    simp only [check] at hc
+    cases hg : get k' s.stakes with
+    | none => simp [hg] at hc
+    | some t =>
+      simp only [hg] at hc
+      split at hc
+      · cases hc
+      · rename_i hmem
+        exact ⟨t, rfl, by simpa using hmem⟩
   | retv k' v =>
     intro hk; subst hk
     simp only [check] at hc
@@ -143,7 +154,7 @@ theorem C28_inv_partial (P : Params) (h : Nat) (s : State) (txs : List Tx) (s' :
         (by cases hg0 : get k s.stakes with
             | none => trivial
             | some t => exact hinv.2 k t hg0)
-        (fun _ t0 ht0 => ⟨t0, ht0, Int.le_refl _⟩)
+        (fun _ t0 ht0 => ⟨t0, ht0, Int.le_refl _, rfl⟩)
       cases hf : txs.foldl (fun t? tx => projS k tx t?) (get k s.stakes) with
       | none => simp [hf] at ht'
       | some t =>
@@ -293,9 +304,10 @@ theorem C28_cr_two_returns_false :
         (∀ tx ∈ txs, CRDeposit.check s tx = none) →
         get o (CRDeposit.applyTxs P h s txs) = some a' → a'.deposit ≤ a'.total) := by
   intro hfull
-  have := hfull wP 10 [(0, ⟨900000000000, 500000000000, 0, .active, 1, 0⟩)]
+  have := hfull wP 10 [(0, { total := 900000000000, deposit := 500000000000, penalty := 0, st := .active, regH := 1, cancelH := 0 })]
     [.ret 0 500000000000 500000000000 200000000000 299999999900, .ret 0 200000000000 200000000000 0 199999999900]
-    0 ⟨900000000000, 500000000000, 0, .active, 1, 0⟩ ⟨400000000000, 500000000000, 0, .active, 1, 0⟩ (by decide) (by decide) (by decide)
+    0 { total := 900000000000, deposit := 500000000000, penalty := 0, st := .active, regH := 1, cancelH := 0 }
+    { total := 400000000000, deposit := 500000000000, penalty := 0, st := .active, regH := 1, cancelH := 0 } (by decide) (by decide) (by decide)
     (by intro tx htx; simp only [List.mem_cons, List.mem_nil_iff, or_false] at htx
         rcases htx with rfl | rfl <;> decide) (by decide)
   revert this; decide
